@@ -150,9 +150,11 @@ def run(ctx):
     # --- macrocycles / long branches: index lengths 1, 2, 3
     sf.set_semantic_constraints("default")
     table = sf.get_semantic_constraints()
-    sizes = [5, 16, 17, 18, 40, 255, 256, 257, 258, 300, 1000] + ([] if quick else [2000, 4000, 4090])
+    sizes = [5, 16, 17, 18, 40, 255, 256, 257, 258, 300, 1000] + ([] if quick else [2000, 3700, 4090])
     for n in sizes[ctx.shard % 3::3] if quick else sizes:
         for blen in (0, 20, 300):
+            if n + blen + 4 > 4096:
+                blen = 0          # keep every ring span below 16^3 symbols (the documented limit)
             m = macrocycle(rng, n, tail=rng.randint(0, 3), branch_len=blen)
             for k in range(2):
                 s, order, _, _ = spell(m, rng, label_mode=rng.choice(["smallest", "percent"]), variants=False)
